@@ -334,7 +334,12 @@ func checkValidationFlags(c *Ctx, gen *packages.Package) {
 			c.Check(strings.Contains(src, w), rule, fmt.Sprintf("generator.%s › depends on %s", fn, w), c.posOf(gen, fd.Pos()), "present", fn+" no longer depends on "+w+": schemas whose only constraint is of that kind are generated without validation code")
 		}
 	}
-	mentionsAll("hasValidations", []string{"HasNumberValidations()", "HasStringValidations()", "HasArrayValidations()", "HasEnum()", "HasObjectValidations()", "isRequired", "AllOf"})
+	mentionsAll("hasValidations", []string{"HasNumberValidations()", "HasStringValidations()", "HasArrayValidations()", "HasEnum()", "HasObjectValidations()", "AllOf"})
+	if fd := load.FuncDecl(gen, "hasValidations"); fd != nil && fd.Type.Params.NumFields() >= 2 {
+		names := fd.Type.Params.List[len(fd.Type.Params.List)-1].Names
+		req := info.Defs[names[len(names)-1]]
+		c.Check(goan.Mentions(info, fd.Body, req), rule, "generator.hasValidations › depends on its required-ness argument", c.posOf(gen, fd.Pos()), "parameter used", "hasValidations ignores the required flag: a required property without other constraints is generated without validation")
+	}
 	mentionsAll("schemaGenContext.schemaValidations", []string{"HasArrayValidations()", "HasEnum()", "hasValidations(&model", "model.Validations()"})
 	mentionsAll("codeGenOpBuilder.HasValidations", []string{"HasNumberValidations()", "HasStringValidations()", "HasArrayValidations()", "HasEnum()", "hasFormatValidation("})
 	mentionsAll("hasFormatValidation", []string{"IsCustomFormatter", "ElemType"})
